@@ -785,8 +785,8 @@ Section Trace2.
     { assert (1 < length (rev up)) by (apply nth_error_Some; congruence). rewrite rev_length in H0. lia. }
     destruct r as [|a0 mid]; [subst up; simpl in Hlen; lia|].
     assert (Ea : a = a0).
-    { rewrite Er in Ha. simpl in Ha. rewrite rev_app_distr in Ha. simpl in Ha.
-      change (z :: rev mid ++ [a0]) with ((z :: rev mid) ++ [a0]) in Ha. rewrite last_opt_snoc in Ha. congruence. }
+    { assert (R : rev up = (z :: rev mid) ++ [a0]) by (rewrite Er; rewrite rev_app_distr; reflexivity).
+      rewrite R in Ha. rewrite last_opt_snoc in Ha. congruence. }
     subst a.
     rewrite !node_dur_app.
     rewrite (concat_opt_map_sum (node_dur x) (node_dur_app x) eq_refl _
@@ -801,13 +801,14 @@ Section Trace2.
     rewrite (zsum_nth_seq (fun n => if Nat.eqb n x then 1%Z else 0%Z) (rev up) (length up - 2) 1) by (rewrite rev_length; lia).
     fold (cntz x (firstn (length up - 1) (skipn 0 up))). fold (cntz x (firstn (length up - 2) (skipn 1 (rev up)))).
     assert (E1 : firstn (length up - 1) (skipn 0 up) = a0 :: mid).
-    { subst up. simpl skipn. simpl length. rewrite app_length. simpl length.
-      replace (S (length mid + 1) - 1) with (S (length mid)) by lia. simpl. f_equal.
-      rewrite firstn_app, firstn_all, Nat.sub_diag. simpl. apply app_nil_r. }
+    { rewrite Er. change (skipn 0 ((a0 :: mid) ++ [z])) with ((a0 :: mid) ++ [z]).
+      replace (length ((a0 :: mid) ++ [z]) - 1) with (length (a0 :: mid)) by (rewrite app_length; simpl; lia).
+      rewrite firstn_app, Nat.sub_diag, firstn_all. apply app_nil_r. }
     assert (E2 : firstn (length up - 2) (skipn 1 (rev up)) = rev mid).
-    { subst up. simpl rev. rewrite rev_app_distr. simpl. rewrite app_length. simpl length.
-      replace (S (length mid + 1) - 2) with (length (rev mid)) by (rewrite rev_length; lia).
-      rewrite firstn_app, firstn_all, Nat.sub_diag. simpl. apply app_nil_r. }
+    { assert (R : rev up = (z :: rev mid) ++ [a0]) by (rewrite Er; rewrite rev_app_distr; reflexivity).
+      rewrite R. change (skipn 1 ((z :: rev mid) ++ [a0])) with (rev mid ++ [a0]).
+      replace (length up - 2) with (length (rev mid)) by (rewrite Er, rev_length, app_length; simpl; lia).
+      rewrite firstn_app, Nat.sub_diag, firstn_all. apply app_nil_r. }
     rewrite E1, E2, cntz_rev.
     assert (C : cntz x up = 1%Z) by (apply cntz_NoDup; auto; apply Hi; auto).
     rewrite Er in C. change (a0 :: mid) with ([a0] ++ mid) in C. rewrite <- app_assoc in C. rewrite !cntz_app in C.
